@@ -313,6 +313,20 @@ register(
 )
 
 
+register(
+    "C13",
+    [vh_stage("c13", 16, 16)],
+    "generated programs with up to 8 helpers (functions, inline functions, constants, macros; lets and lambdas give compiler-synthesised functions) in every modern dialect, four builds each (library route with the optimiser off / on, the command line derivation without / with -O, which adds location entries), "
+    "classic programs through the real `run --symbol-output-file` binary. Oracle per function entry (64-hex key, value not a source location) whose hash is the tree hash of a subtree of the emitted program: the value is the name of a non-inline function of the source (or a compiler-made name containing _$_); "
+    "<key>_arguments parses to the function's parameter list; the code is extracted twice (own subtree search, and the repository's extract_program_and_env + path_to_function + rewrite_in_program, which must agree) and run with clvmr on 3 generated argument lists: it must return what the independent reference interpreter gives for calling that function in the source (or fail where it fails). "
+    "Builds without optimisation (stepping < 23, optimiser off, cl22 frontend optimiser off): every non-inline function reachable from the main expression through function / inline / macro bodies has such an entry. Distinct non-trivial = distinct (program, dialect, build) with >= 1 user function judged and every clause clean",
+    needs=("bins",),
+    min_nontrivial=100,
+    assumptions=["compiler-synthesised functions (letbinding_$_N, lambda_$_N) have no source twin to call: their entries are checked for presence of code only", "functions with closure-typed parameters are not run", "classic: the table comes from the CLI and also lists constants; the classic compiler always optimises, so only the hash/name clause is judged there",
+                 "reachability through computed constant definitions (evaluated at compile time) is not judged"],
+)
+
+
 def _c12_stage(ctx):
     import c12
 
